@@ -180,7 +180,7 @@ outer:
 			self.SignalHandle <- self.fatalErr(
 				fmt.Sprintf("Runtime stack limit of %d was exceeded by %d", self.Limits.StackMaxSize, len(self.Stack)-int(self.Limits.StackMaxSize)),
 				value.VMFatalExceptionKind(value.Vm_StackOverFlowErrorKind),
-				self.parent.SourceMap(self.CallStack[len(self.CallStack)-2]),
+				self.parent.SourceMap(*self.callFrame()),
 			)
 			return
 		}
